@@ -68,9 +68,10 @@ def check_stdio(case: Dict[str, Any]) -> Outcome:
                 tasks = [asyncio.ensure_future(one(i)) for i in range(n)]
                 await asyncio.sleep(0.05)
                 lines = [json.dumps({"jsonrpc": "2.0", "method": "notifications/message", "params": {"level": "info", "data": j}}) for j in range(k)]
-                lines += [json.dumps({"jsonrpc": "2.0", "id": f"c{i}", "result": {"for": f"c{i}"}}) for i in order]
+                big = case.get("big")  # the answer of this caller is larger than 64 KiB
+                lines += [json.dumps({"jsonrpc": "2.0", "id": f"c{i}", "result": {"for": f"c{i}", **({"blob": "z" * 70000} if big == i else {})}}) for i in order]
                 blob = ("\n".join(lines) + "\n").encode()
-                step = max(1, len(blob) // reads)
+                step = max(1, len(blob) // reads) if not case.get("read_size") else case["read_size"]
                 for a in range(0, len(blob), step):
                     proc.stdout.feed(blob[a : a + step])
                     await asyncio.sleep(0)
@@ -85,7 +86,7 @@ def check_stdio(case: Dict[str, Any]) -> Outcome:
         out.fail("stdio-burst-harness-raised", f"{type(e).__name__}: {e}")
         return out
     out.nontrivial = k > 0 or order != sorted(order)
-    out.classes = ("stdio-burst", f"n:{n}", f"burst:{'0' if k == 0 else ('<=100' if k <= 100 else '>100')}") + (("server-closes-output-after-answering",) if case.get("eof") else ())
+    out.classes = ("stdio-burst", f"n:{n}", f"burst:{'0' if k == 0 else ('<=100' if k <= 100 else '>100')}") + (("server-closes-output-after-answering",) if case.get("eof") else ()) + (("answer>64KiB-followed-by-small-ones",) if case.get("big") is not None else ())
     for i in range(n):
         kind, val = results.get(i, ("none", None))
         if kind == "return" and isinstance(val, dict) and val.get("for") == f"c{i}":
@@ -363,7 +364,14 @@ def job_stdio(col: Collector, seed: int, tier: str) -> None:
                     if k <= 50:
                         case = dict(case, eof=True)
                         col.record(case, check(case))
-    col.exhaustive_parts.append("over StdioClient: 2 and 3 callers x all answer orders x burst of {0,1,50,99,100,101,150,400} notifications ahead of the answers x {1,2,7} pipe reads")
+    # one answer beyond 64 KiB, the others right behind it in the same pipe reads, then silence
+    for n in (2, 3):
+        for order in itertools.permutations(range(n)):
+            for big in range(n):
+                for read_size in (65536, 16384, 100000):
+                    case = {"n": n, "burst": 0, "order": list(order), "reads": 1, "big": big, "read_size": read_size}
+                    col.record(case, check(case))
+    col.exhaustive_parts.append("over StdioClient: 2 and 3 callers x all answer orders x burst of {0,1,50,99,100,101,150,400} notifications ahead of the answers x {1,2,7} pipe reads; one answer of 70 KB with the small ones right behind it, reads of 16 / 64 / 100 KiB")
 
 
 JOBS = {"exhaustive": job_exhaustive, "hyp": job_hyp, "stdio": job_stdio}
